@@ -118,6 +118,14 @@ GridWitness(tt, F, base, dom) ==
 TrueId(tt)  == CHOOSE i \in DOMAIN tt : tt[i].k = "b" /\ tt[i].n = 1
 FalseId(tt) == CHOOSE i \in DOMAIN tt : tt[i].k = "b" /\ tt[i].n = 0
 
+\* a witness (model evaluated by TLC) exists among the candidates or on the grid
+Witness(tt, F, base, hints, dom) ==
+  \/ F = {}
+  \/ HintWitness(tt, F, base, hints)
+  \/ (OpenSyms(tt, F, base) \subseteq DomNames(dom) /\ GridWitness(tt, F, base, dom))
+\* candidates only (the monitors that test many sets per event use this one)
+CandWitness(tt, F, base, hints) == F = {} \/ HintWitness(tt, F, base, hints)
+
 SatStatus(tt, F, base, hints, dom) ==
   IF F = {} THEN "sat"
   ELSE IF HintWitness(tt, F, base, hints) THEN "sat"
